@@ -22,7 +22,7 @@ type vmModel struct {
 	evalExpr, evalLet, evalStmt, evalOp *ssa.Function
 	handlers                            map[string]map[string]*ssa.Function // evaluator role -> node kind -> handler
 	inline                              map[string]map[string]bool          // evaluator role -> node kinds handled inline
-	sentinels                           []*ssa.Global                        // exported package-level error variables
+	sentinels                           []*ssa.Global                       // exported package-level error variables
 	fns                                 []*ssa.Function
 }
 
